@@ -8,10 +8,13 @@
   faults of any sink, in any order (so requests, Open() and Close() may arrive while the first
   open is still in progress); for the ref-counted sink any sequence of Open/Close by any
   holders and faults of the underlying sink; for the provider any sequence of CreateSink calls
-  with any keys by any holders and of holders dropping their reference.  No bounds, no
-  hypotheses on the history.
+  with any keys by any holders, of holders calling Open()/Close() on what they hold, of holders
+  dropping their reference, and of transport faults of any underlying sink (so CreateSink may
+  come while the cached shared sink is Closed — faulted, or closed by its last holder — and
+  older holders are alive).  No bounds, no hypotheses on the history.
 -/
 import ScalesModel.Proofs.SharedLemmas
+import ScalesModel.Proofs.SharedProvLemmas
 namespace Scales.Shared
 
 /-! ## SingletonPoolSink -/
@@ -248,12 +251,15 @@ theorem C16_underlying_balance (ops : List ROp) :
 /-! ## SharedSinkProvider -/
 
 /-- A holder is alive from its CreateSink until it drops its reference or asks again:
-    operations of other holders do not affect what it holds. -/
+    operations of other holders, anybody's Open()/Close() and faults of underlying sinks do not
+    affect what it holds. -/
 theorem C16_holder_alive_until_it_drops (p : Prov) (h key : Nat) :
     (h, key, (p.step (.create h key)).2) ∈ (p.step (.create h key)).1.held ∧
     (∀ x ∈ p.held, ∀ h' key', x.1 ≠ h' →
-      x ∈ (p.step (.create h' key')).1.held ∧ x ∈ (p.step (.drop h')).1.held) := by
-  constructor
+      x ∈ (p.step (.create h' key')).1.held ∧ x ∈ (p.step (.drop h')).1.held) ∧
+    (∀ h' s, (p.step (.hopen h')).1.held = p.held ∧ (p.step (.hclose h')).1.held = p.held ∧
+      (p.step (.fault s)).1.held = p.held) := by
+  refine ⟨?_, ?_, ?_⟩
   · simp only [Prov.step]
     split <;> (try split) <;> simp
   · intro x hx h' key' hne
@@ -263,19 +269,123 @@ theorem C16_holder_alive_until_it_drops (p : Prov) (h key : Nat) :
     · simp only [Prov.step]
       split <;> (try split) <;> simp [hf]
     · simp only [Prov.step]; exact hf
+  · intro h' s
+    refine ⟨?_, ?_, rfl⟩ <;> (simp only [Prov.step]; split <;> rfl)
 
 /-- The same sharing key yields the same sink for as long as any holder is alive: if after any
-    history holder `h` holds sink `s` obtained under key `key ≠ 0`, then CreateSink with that
-    key — by anybody — returns `s`, and the next provider is not asked for another sink. -/
+    history — Open()/Close() calls by holders and faults of underlying sinks included, so
+    whatever the state of the shared sink — holder `h` holds sink `s` obtained under key
+    `key ≠ 0`, then CreateSink with that key, by anybody, returns `s`; the next provider is not
+    asked for another underlying sink and no underlying sink is touched. -/
 theorem C16_same_key_same_sink_while_alive (ops : List POp) (h key s h2 : Nat) (hk : key ≠ 0)
     (hh : (h, key, s) ∈ (Prov.run {} ops).held) :
     ((Prov.run {} ops).step (.create h2 key)).2 = s ∧
-    ((Prov.run {} ops).step (.create h2 key)).1.created = (Prov.run {} ops).created := by
+    ((Prov.run {} ops).step (.create h2 key)).1.created = (Prov.run {} ops).created ∧
+    ((Prov.run {} ops).step (.create h2 key)).1.sinks = (Prov.run {} ops).sinks := by
   have hi := Prov.run_inv ops PInvP.init
   generalize Prov.run {} ops = p at hi hh
-  have hl := hi _ hh hk
-  simp only at hl
-  constructor <;> simp only [Prov.step, hk, if_false, hl]
+  have hs := create_same hi hh hk h2
+  simp only at hs
+  rw [hs]
+  exact ⟨rfl, rfl, rfl⟩
+
+/-- Exactly one shared sink per key while alive: after every history any two live holders that
+    asked with the same sharing key hold the same sink — a `RefCountedSink` around one
+    underlying sink that exists. -/
+theorem C16_same_key_holders_hold_one_sink (ops : List POp) (x y : Hold)
+    (hx : x ∈ (Prov.run {} ops).held) (hy : y ∈ (Prov.run {} ops).held)
+    (hk : x.2.1 ≠ 0) (hxy : x.2.1 = y.2.1) :
+    x.2.2 = y.2.2 ∧ 1 ≤ x.2.2 ∧ x.2.2 ≤ (Prov.run {} ops).created ∧
+    (sinkAt (Prov.run {} ops).sinks x.2.2).shared = true := by
+  have hi := Prov.run_inv ops PInvP.init
+  generalize Prov.run {} ops = p at hi hx hy
+  have h1 := hi.look x hx hk
+  have h2 := hi.look y hy (by rw [← hxy]; exact hk)
+  rw [hxy, h2] at h1
+  obtain ⟨a, b, c⟩ := hi.hold x hx
+  refine ⟨(Option.some.inj h1).symm, a, b, ?_⟩
+  rw [c]; simpa using hk
+
+/-- Exactly one underlying sink per key while alive: in every step of every history the next
+    provider is asked for an underlying sink only by a CreateSink without sharing key or with a
+    key under which no live holder holds a sink, and then for exactly one. -/
+theorem C16_underlying_created_only_without_live_holder (ops : List POp) (op : POp) :
+    ((Prov.run {} ops).step op).1.created = (Prov.run {} ops).created ∨
+    (((Prov.run {} ops).step op).1.created = (Prov.run {} ops).created + 1 ∧
+      ∃ h key, op = .create h key ∧ (key = 0 ∨ ∀ x ∈ (Prov.run {} ops).held, x.2.1 ≠ key)) := by
+  have hi := Prov.run_inv ops PInvP.init
+  generalize Prov.run {} ops = p at hi
+  cases op with
+  | drop h => exact Or.inl rfl
+  | fault s => left; simp [Prov.step, Prov.created, modAt_length]
+  | hopen h => left; simp only [Prov.step]; split <;> simp [Prov.created, modAt_length]
+  | hclose h => left; simp only [Prov.step]; split <;> simp [Prov.created, modAt_length]
+  | create h key =>
+    by_cases hkey : key = 0
+    · subst hkey
+      rw [step_create_plain]
+      exact Or.inr ⟨by simp [Prov.created], h, 0, rfl, Or.inl rfl⟩
+    · cases hl : lookup p.cache key with
+      | some s => rw [step_create_hit p h key s hkey hl]; exact Or.inl rfl
+      | none =>
+        rw [step_create_miss p h key hkey hl]
+        refine Or.inr ⟨by simp [Prov.created], h, key, rfl, Or.inr ?_⟩
+        intro x hx hxk
+        have := hi.look x hx (by rw [hxk]; exact hkey)
+        rw [hxk, hl] at this
+        cases this
+
+/-- Through the provider, too, a shared underlying sink is opened on the first Open and closed
+    only when its last holder closes: after every history (faults included) every shared
+    underlying sink has seen exactly one more `Open()` than `Close()` if some holder has it
+    open, and exactly as many otherwise. -/
+theorem C16_shared_underlying_balance (ops : List POp) (s : Nat)
+    (hs : (sinkAt (Prov.run {} ops).sinks s).shared = true) :
+    (sinkAt (Prov.run {} ops).sinks s).opens =
+      (sinkAt (Prov.run {} ops).sinks s).closes + (if 0 < (sinkAt (Prov.run {} ops).sinks s).rc then 1 else 0) :=
+  (Prov.run_inv ops PInvP.init).bal s hs
+
+/-- A holder's Open()/Close() on the shared sink it holds reaches the underlying sink exactly at
+    the transitions 0 → 1 and 1 → 0 of the wrapper's count, a surplus Close changes nothing, and
+    no other sink is touched. -/
+theorem C16_shared_open_close_at_transitions (ops : List POp) (h : Nat) (x : Hold)
+    (hx : heldBy (Prov.run {} ops).held h = some x) (hk : x.2.1 ≠ 0) :
+    let ps := sinkAt (Prov.run {} ops).sinks x.2.2
+    let po := sinkAt ((Prov.run {} ops).step (.hopen h)).1.sinks x.2.2
+    let pc := sinkAt ((Prov.run {} ops).step (.hclose h)).1.sinks x.2.2
+    (po.opens = ps.opens + (if ps.rc = 0 then 1 else 0) ∧ po.closes = ps.closes ∧ po.rc = ps.rc + 1) ∧
+    (pc.opens = ps.opens ∧ pc.closes = ps.closes + (if ps.rc = 1 then 1 else 0) ∧ pc.rc = ps.rc - 1) ∧
+    (ps.rc = 0 → pc = ps) ∧
+    (∀ s', s' ≠ x.2.2 →
+      sinkAt ((Prov.run {} ops).step (.hopen h)).1.sinks s' = sinkAt (Prov.run {} ops).sinks s' ∧
+      sinkAt ((Prov.run {} ops).step (.hclose h)).1.sinks s' = sinkAt (Prov.run {} ops).sinks s') := by
+  have hi := Prov.run_inv ops PInvP.init
+  generalize Prov.run {} ops = p at hi hx
+  obtain ⟨h1, h2, h3⟩ := hi.hold x (heldBy_mem hx)
+  have hsh : (sinkAt p.sinks x.2.2).shared = true := by rw [h3]; simpa using hk
+  have ho : (p.step (.hopen h)).1.sinks = modAt p.sinks x.2.2 PSink.hopen := by simp [Prov.step, hx]
+  have hc : (p.step (.hclose h)).1.sinks = modAt p.sinks x.2.2 PSink.hclose := by simp [Prov.step, hx]
+  simp only [ho, hc]
+  refine ⟨?_, ?_, ?_, ?_⟩
+  · rw [sinkAt_modAt]; simp only [h1, h2, and_self, if_true]; exact hopen_of_shared _ hsh
+  · rw [sinkAt_modAt]; simp only [h1, h2, and_self, if_true]; exact hclose_of_shared _ hsh
+  · intro h0
+    rw [sinkAt_modAt]; simp only [h1, h2, and_self, if_true]
+    simp [PSink.hclose, hsh, h0]
+  · intro s' hne
+    exact ⟨sinkAt_modAt_ne _ _ _ _ (Ne.symm hne), sinkAt_modAt_ne _ _ _ _ (Ne.symm hne)⟩
+
+/-- A transport fault of an underlying sink only closes that sink: it calls neither `Open()`
+    nor `Close()`, leaves the wrapper's count, every other sink, the cache and what the
+    holders hold as they are. -/
+theorem C16_fault_only_closes (p : Prov) (s : Nat) (hs : 1 ≤ s ∧ s ≤ p.created) :
+    sinkAt (p.step (.fault s)).1.sinks s = { sinkAt p.sinks s with st := .closed } ∧
+    (∀ s', s' ≠ s → sinkAt (p.step (.fault s)).1.sinks s' = sinkAt p.sinks s') ∧
+    (p.step (.fault s)).1.cache = p.cache ∧ (p.step (.fault s)).1.held = p.held := by
+  refine ⟨?_, fun s' hne => sinkAt_modAt_ne _ _ _ _ (Ne.symm hne), rfl, rfl⟩
+  show sinkAt (modAt p.sinks s PSink.ufault) s = _
+  rw [sinkAt_modAt, if_pos ⟨rfl, hs.1, hs.2⟩]
+  rfl
 
 /-! ## the model's observations always satisfy the executable specifications
 
@@ -284,18 +394,31 @@ theorem C16_same_key_same_sink_while_alive (ops : List POp) (h key s h2 : Nat) (
 
 theorem C16_singleton_model_satisfies_spec (cfg : Unit) (ops : List SOp)
     (_ : singleton.wf cfg ops = true) :
-    singleton.spec cfg (singleton.modelTrace cfg ops) = .ok :=
-  spec_singleton_go ops {} {} 0 PInv.init ⟨rfl, rfl⟩
+    singleton.spec cfg (singleton.modelTrace cfg ops) = .ok := by
+  rw [show singleton = guarded singletonCore from rfl, guarded_model_spec]
+  exact spec_singleton_go ops {} {} 0 PInv.init ⟨rfl, rfl⟩
 
 theorem C16_refcount_model_satisfies_spec (cfg : Bool) (ops : List ROp)
     (_ : refcount.wf cfg ops = true) :
-    refcount.spec cfg (refcount.modelTrace cfg ops) = .ok :=
-  spec_refcount_go cfg ops {} {} 0 RInv.init ⟨rfl, rfl, rfl⟩
+    refcount.spec cfg (refcount.modelTrace cfg ops) = .ok := by
+  rw [show refcount = guarded refcountCore from rfl, guarded_model_spec]
+  exact spec_refcount_go cfg ops {} {} 0 RInv.init ⟨rfl, rfl, rfl⟩
 
 theorem C16_sharedprov_model_satisfies_spec (cfg : Unit) (ops : List POp)
     (_ : sharedprov.wf cfg ops = true) :
-    sharedprov.spec cfg (sharedprov.modelTrace cfg ops) = .ok :=
-  spec_sharedprov_go ops {} {} 0 PInvP.init rfl
+    sharedprov.spec cfg (sharedprov.modelTrace cfg ops) = .ok := by
+  rw [show sharedprov = guarded sharedprovCore from rfl, guarded_model_spec]
+  exact spec_sharedprov_go ops {} {} 0 PInvP.init PRel.init
+
+/-- An exception that escapes the implementation where the model predicts a normal outcome is
+    judged, never accepted: a history of outcomes of any of the three components that contains
+    a raised outcome does not satisfy the component's specification. -/
+theorem C16_raised_outcome_is_a_violation :
+    (∀ (h : List (SOp × Res SObs)) op w, (op, Res.raised w) ∈ h → singleton.spec () h ≠ .ok) ∧
+    (∀ (y : Bool) (h : List (ROp × Res RObs)) op w, (op, Res.raised w) ∈ h → refcount.spec y h ≠ .ok) ∧
+    (∀ (h : List (POp × Res PObs)) op w, (op, Res.raised w) ∈ h → sharedprov.spec () h ≠ .ok) :=
+  ⟨fun h op w hm => guardSpec_raised _ h op w hm, fun _ h op w hm => guardSpec_raised _ h op w hm,
+   fun h op w hm => guardSpec_raised _ h op w hm⟩
 
 /-- **C16, specification level**: for every history of each of the three components the
     model's observations satisfy the executable specification. -/
@@ -327,5 +450,17 @@ example : holders 0 [.ropen 1, .ropen 2, .rclose 1] = 1 := by decide
 example : holders 0 [.ropen 1, .rclose 1, .rclose 1, .rclose 2] = 0 := by decide
 -- a holder holding a shared sink
 example : (1, 7, 1) ∈ (Prov.run {} [.create 1 7, .create 2 7, .drop 2]).held := by decide
+-- … which is Closed because its underlying sink faulted while two holders had it open, or
+-- because its last holder closed it; a new holder of the key still gets sink 1
+example : (1, 7, 1) ∈ (Prov.run {} [.create 1 7, .create 2 7, .hopen 1, .hopen 2, .fault 1]).held ∧
+    (sinkAt (Prov.run {} [.create 1 7, .create 2 7, .hopen 1, .hopen 2, .fault 1]).sinks 1).st = .closed ∧
+    ((Prov.run {} [.create 1 7, .create 2 7, .hopen 1, .hopen 2, .fault 1]).step (.create 3 7)).2 = 1 := by
+  decide
+example : (sinkAt (Prov.run {} [.create 1 7, .hopen 1, .hclose 1]).sinks 1).st = .closed ∧
+    ((Prov.run {} [.create 1 7, .hopen 1, .hclose 1]).step (.create 2 7)).2 = 1 := by decide
+-- a holder of a shared sink, as `heldBy` sees it
+example : heldBy (Prov.run {} [.create 1 7, .hopen 1]).held 1 = some (1, 7, 1) := by decide
+-- a key without live holder: the entry was collected, the next CreateSink makes sink 2
+example : ((Prov.run {} [.create 1 7, .drop 1]).step (.create 2 7)).2 = 2 := by decide
 
 end Scales.Shared
